@@ -78,6 +78,31 @@ impl Write for Scripted {
         s.delivered.extend_from_slice(&buf[..k]);
         res
     }
+    /// a writer that really gathers (as Vec<u8> and File do): the slices are taken one after the other, each with its own scripted
+    /// answer and its own log entry, until one is not taken whole; an error that is due after something was accepted stays in
+    /// the script for the next call (a gathered write reports what it took)
+    fn write_vectored(&mut self, bufs: &[IoSlice<'_>]) -> io::Result<usize> {
+        let mut total = 0usize;
+        let mut first = true;
+        for b in bufs {
+            if b.is_empty() {
+                continue;
+            }
+            if !first {
+                let next_is_err = matches!(self.0.borrow().script.front(), Some(Resp::ErrI) | Some(Resp::ErrW) | Some(Resp::ErrO));
+                if next_is_err {
+                    break;
+                }
+            }
+            first = false;
+            let k = self.write(b)?;
+            total += k;
+            if k < b.len() {
+                break;
+            }
+        }
+        Ok(total)
+    }
     fn flush(&mut self) -> io::Result<()> {
         self.0.borrow_mut().flushes += 1;
         Ok(())
@@ -311,6 +336,16 @@ pub fn threshold_family(deep: bool, osc: bool) -> Vec<Vec<u8>> {
         b.extend_from_slice(b"\x1b[0m tail\n");
         v.push(b);
     }
+    // many short runs in ONE buffer (16, 17, 33: whatever a call gathers has a capacity), the last one followed by the opening of a
+    // sequence that the next call completes
+    for runs in [16usize, 17, 33] {
+        let mut b = Vec::new();
+        for i in 0..runs {
+            b.extend_from_slice(format!("run{i:02}\x1b[{}m", i % 8 + 30).as_bytes());
+        }
+        b.extend_from_slice(b"tail\x1b[3");
+        v.push(b);
+    }
     if deep || osc {
         // a string sequence whose payload ends right at a typical buffer size, then its terminator and visible text - ONE call
         let ls: &[usize] = if deep { &[4088, 4089, 4090] } else { &[4089] };
@@ -340,6 +375,9 @@ pub fn record(seed: u64, runs: u64, target: usize, path: &str, max_profile: usiz
         if fam {
             input = family[k as usize].clone();
             op = ["write_all", "write_fmt", "write"][(k % 3) as usize];
+            if input.starts_with(b"run00") {
+                op = "write";
+            }
             if input.starts_with(b"\x1b]52") {
                 op = "write";      // the entry point that is handed the whole buffer and reports a count
             }
